@@ -47,4 +47,60 @@ CHECKS = {
   "note": TB + " Raw-form preamble texts are well-formed comments.",
   "technique": "exhaustive cross-product enumeration + property-based testing (rapid) over preamble texts with go/parser / go/types structure oracles",
  },
+ "C02": {
+  "text": "Generated search over arbitrary DSL trees (every exported construct, plausible and arbitrary arguments; ~98% invalid Go), plausible valid programs and real programs with one structured damage, under random File settings and form policies: each is built formatted and NoFormat; nil from Render implies the bytes parse and equal gofmt(raw twin); an error implies nothing was written; every body statement and ...Func group is also rendered as a fragment (nil implies the bytes parse as file, declarations or statements); no panic anywhere. Thorough adds coverage-guided fuzzing of the same property (rapid.MakeFuzz).",
+  "note": TB + " Documented preconditions are respected by construction (supported Lit types, Dict alone in Values).",
+  "technique": "differential property (formatted vs gofmt of NoFormat twin) over rapid-generated trees, damaged programs and native fuzzing",
+ },
+ "C07": {
+  "text": "Generated search over map-rich recipes (nested Dicts with qualified keys competing for names, multi-key Tags, ImportNames tables of up to 200 entries, import sets) plus random trees and programs: each recipe is rebuilt and rendered 12 (thorough 40) times in-process and one in 20 also in 4 (16) separate processes; all results must be byte-identical. Map orders are sampled, not enumerated.",
+  "note": TB + " The Go runtime chooses map iteration order; an order leak over k entries survives R rebuilds with probability <= 2^-(R-1) per case.",
+  "technique": "metamorphic property (rebuild-and-compare, in-process and cross-process) over rapid-generated recipes",
+ },
+ "C08": {
+  "text": "Stateful generated search: histories of add / File.Render / Statement.RenderWithFile / Group.RenderWithFile / ImportName / ImportAlias / Anon / PackagePrefix over one File and a pool of statements (case blocks with nil, null, empty and captured bodies, Dicts with qualified keys); invariants after every step: back-to-back renders equal, unchanged objects render as before, qualifier per path fixed at first sighting, the File's import block declares every sighted path under the modelled name and resolves through go/types.",
+  "note": TB + " Anon on an already sighted path is excluded, as in the property.",
+  "technique": "stateful property-based testing (rapid) with history invariants and a first-sighting name model",
+ },
+ "C09": {
+  "text": "Generated job sets (4..16 File recipes with competing import names): concurrent build+render on one goroutine per job behind a barrier (20 / 200 rounds, cold start: paths unique to the case) under the race detector, then solo references and three sequential permutations in two interleavings, all compared byte-for-byte with the solo output; plus Files sharing the same Code values rendered one after another vs unshared twins. Goroutine interleavings are sampled by the scheduler, not enumerated.",
+  "note": TB + " Go race detector (-race build of /repo and the harness).",
+  "technique": "differential property (solo vs sequential vs concurrent schedules) over rapid-generated job sets under the Go race detector",
+ },
+ "C10": {
+  "level": "fault_enumeration",
+  "text": "For every generated tree (valid programs and invalid random trees) the complete fault matrix is executed: 5 writer-based entry points x 6 writer behaviours, and File.Save x 7 filesystem situations on a real filesystem; assertions: a failing render performs zero Write calls and leaves an existing target's bytes and mtime untouched, injected writer/FS errors come back non-nil, success delivers exactly the reference bytes. Per-cell counts are in the evidence.",
+  "note": TB + " Runs as root: permission faults are not used; short writes without error are not injected (they violate io.Writer).",
+  "technique": "fault enumeration (writer and filesystem fault matrix) x rapid-generated trees",
+ },
+ "C11": {
+  "text": "Exhaustive over bool, int8, uint8 (thorough: int16, uint16) and float64 decades 1e-330..1e310; rapid boundary/random values for all 16 supported numeric types; each rendered literal is evaluated with go/types.Eval and compared with the Go value and type (LitFunc: same bytes as Lit, callback ran once).",
+  "note": TB + " Finite values only.",
+  "technique": "exhaustive small domains + property-based testing (rapid) with go/types.Eval / go/constant as value-and-type oracle",
+ },
+ "C12": {
+  "text": "Strings: rapid byte strings biased to hostile characters (thorough 1.6M + native fuzzing); runes: all code points < 0x300 plus strided sample (thorough: all 1,112,064 valid code points); bytes: all 256. Oracle: go/scanner token shape of `a := <lit>; b`, strconv.Unquote / go/types.Eval value and type.",
+  "note": TB,
+  "technique": "exhaustive rune/byte enumeration + property-based testing (rapid) + native fuzzing with scanner-shape and round-trip oracles",
+ },
+ "C14": {
+  "text": "API enumerated from /repo/jen sources at check time (triples and ...Func companions must exist with identical parameters); for every construct >= 50 generated argument lists compared across function form, method form, Add, *Group method (append + return identity) and ...Func variants, with GoString/Render/RenderWithFile agreement over three repetitions and callback counters (exactly once, never late); form policy applied at every call of real programs vs the all-method build.",
+  "note": TB + " Reflection over the compiled API; package functions come from a generated table checked against the sources.",
+  "technique": "API-enumerating property-based testing (rapid): cross-form byte equality, callback counting, metamorphic form policy on corpus programs",
+ },
+ "C15": {
+  "text": "Comment policy applied to every Block/Defs/Struct/Interface/case body/File of real programs and of generated programs, with generated texts: go/scanner code-token sequence with comments must equal the one without (NoFormat and formatted), and the NoFormat output's comments must be exactly the given texts in line or block style; generated file-level settings: package doc iff package comments, headers apart from it by a blank line, import annotation unquotes to the canonical path.",
+  "note": TB + " Text compared on NoFormat output only (gofmt rewrites doc comments).",
+  "technique": "metamorphic property (comment injection) over corpus and rapid-generated programs; structural oracle via go/parser comment groups",
+ },
+ "C16": {
+  "text": "Generated Dicts of 0..20 pairs with colliding / identical key texts, null sides by construction, qualified keys and nested values: the composite literal parsed from raw and formatted output must hold each live pair exactly once with its own value, raw key texts non-decreasing, same sequence after gofmt, inline for one pair and one per line for several, {} when all null.",
+  "note": TB + " Order is judged on raw key text, the documented sort key.",
+  "technique": "property-based testing (rapid) with a parsed-literal multiset/order/layout oracle",
+ },
+ "C17": {
+  "text": "Generated tag maps (0..8 conventional keys to hostile byte strings; thorough 1.6M + native fuzzing): exactly one STRING token, strconv.Unquote, reflect.StructTag.Lookup returns every value, keys sorted, empty map renders nothing; raw and formatted output agree.",
+  "note": TB,
+  "technique": "round-trip property (rapid + native fuzzing) through strconv.Unquote and reflect.StructTag",
+ },
 }
